@@ -1,2 +1,4 @@
-import CfbVerif.Gen.Consts
-import CfbVerif.Handle.Model
+import CfbVerif.Props.C06
+import CfbVerif.Props.C09
+import CfbVerif.Drv.Handle
+import CfbVerif.Drv.Names
